@@ -19,8 +19,8 @@ import vlib
 from props import c15, calsim
 
 THEOREMS = ['Libvna.PV.' + t for t in ('weights_irrelevant_exact', 'weighted_unique', 'weight_pos', 'loopSum_closed', 'pvalue_at_zero', 'pvalue_range')] + \
-           ['Libvna.Interp.spline_linear']
-FILES = ['Model/PValue.lean', 'Props/C18.lean', 'Props/C10.lean']
+           ['Libvna.Interp.spline_linear', 'Libvna.PV.weighted_injective', 'Libvna.PV.weighted_ls_exact', 'Libvna.PV.weighted_residual_exact']
+FILES = ['Model/PValue.lean', 'Props/C18.lean', 'Props/C10.lean', 'Props/C18LS.lean', 'Props/C17Order.lean']
 
 
 class NoisySc(calsim.Scenario):
@@ -92,9 +92,9 @@ def run(chk):
     rng = random.Random(chk.seed * 83 + 18)
     broken = []
     if os.environ.get('VERIF_DEV_NOPROOF') != '1':
-        c15.proof_side(chk, ['Libvna.Props.C18'], THEOREMS, FILES, broken)
+        c15.proof_side(chk, ['Libvna.Props.C18', 'Libvna.Props.C18LS'], THEOREMS, FILES, broken)
     chk.trusted += ['tools/props/calsim.py ground truth and noise generator (Mersenne Twister Gaussian deviates)', 'exp of the platform; the chi-square law itself (the closed form is proved equal to the recurrence, not to an integral)']
-    chk.checker_cmd = 'cd lean && lake build Libvna.Props.C18 && #print axioms'
+    chk.checker_cmd = 'cd lean && lake build Libvna.Props.C18 Libvna.Props.C18LS && #print axioms'
     exe, _ = vlib.build_c()
     quick = chk.tier == 'quick'
     scale = 3 if broken else 1
